@@ -6,7 +6,7 @@ From PegV Require Import Base.Tac Spec.Syntax Spec.Peg Spec.Tokens Model.Machine
     are the non-empty tokens nested directly inside it, in input order; the printer lists the nodes
     in pre-order with depth = nesting (the text shown is the slice [begin,end) of the runes). *)
 Theorem C05_ast_is_derivation_tree :
-  forall g ptx buf penv, good_grammar g -> good_buf buf ->
+  forall g ptx buf penv, good_grammar g -> good_buf buf -> good_switches g ->
   forall memo inline n r st0 p f evs,
     slot_ok g inline r -> peg_parse g ptx buf penv n r = Some (Succ p f, evs) ->
     exists st' kids, machine g ptx buf penv memo inline n r st0 = Some (Ret true st') /\ f = [Node r 0 p kids] /\
